@@ -633,6 +633,138 @@ func firstLines(s string, n int) string {
 }
 
 // ---------------------------------------------------------------------------------------
+// configurations with several endpoints: Init of the whole service, then one request per
+// endpoint through ONE router instance
+
+type epTemplate struct {
+	segs []tok
+	be   []tok
+}
+
+func (g *gen) configCase(tpls []epTemplate, stream string) {
+	n := len(tpls)
+	segs := make([][]tok, n)
+	vals := make([][]string, n)
+	for i, t := range tpls {
+		segs[i] = append([]tok{lit(fmt.Sprintf("c%d", i))}, t.segs...)
+		for j := range params(t.segs) {
+			vals[i] = append(vals[i], fmt.Sprintf("v%d-%d", i, j))
+		}
+	}
+	for _, ad := range adapters {
+		setMode(ad.colon)
+		var eps []*config.EndpointConfig
+		for i, t := range tpls {
+			eps = append(eps, newEndpoint(renderEp(segs[i]), render(t.be)))
+		}
+		sc := newService(eps)
+		var err error
+		func() {
+			defer func() {
+				if r := recover(); r != nil {
+					err = fmt.Errorf("panic: %v", r)
+				}
+			}()
+			err = sc.Init()
+		}()
+		accepted := err == nil
+		var routes []string
+		var routesJS []interface{}
+		if accepted {
+			cap := &capture{}
+			h, perr := buildHandler(ad.name, sc, proxy.NewDefaultFactory(cap.backendFactory(), logging.NoOp))
+			for i, t := range tpls {
+				var term string
+				var js interface{}
+				if perr != nil || h == nil {
+					term, js = "OPanic", map[string]interface{}{"router_build": fmt.Sprint(perr)}
+				} else {
+					path := requestPath(fmt.Sprintf("/c%d", i), t.segs, vals[i])
+					cap.reset()
+					rec := httptest.NewRecorder()
+					panicked := false
+					func() {
+						defer func() {
+							if r := recover(); r != nil {
+								panicked = true
+							}
+						}()
+						h.ServeHTTP(rec, httptest.NewRequest("GET", path, nil))
+					}()
+					var rj interface{}
+					term, rj = robsCoq(cap.get(), rec.Code, panicked)
+					js = map[string]interface{}{"request": path, "result": rj}
+				}
+				routes = append(routes, emit.Pair(emit.StrList(vals[i]), term))
+				routesJS = append(routesJS, js)
+			}
+		}
+		var epsCoq, texts []string
+		var epsJS []interface{}
+		for i, t := range tpls {
+			epsCoq = append(epsCoq, emit.Pair(toksCoq(segs[i]), toksCoq(t.be)))
+			texts = append(texts, emit.Pair(emit.Str(renderEp(segs[i])), emit.Str(render(t.be))))
+			epsJS = append(epsJS, map[string]interface{}{"endpoint": renderEp(segs[i]), "url_pattern": render(t.be), "values": vals[i]})
+		}
+		term := emit.App("CConfig", ad.name, emit.List(epsCoq), emit.List(texts), emit.Bool(accepted), emit.List(routes))
+		errText := "none"
+		if err != nil {
+			errText = err.Error()
+		}
+		js := map[string]interface{}{"kind": "config", "stream": stream, "adapter": ad.name, "endpoints": epsJS,
+			"observed": map[string]interface{}{"accepted": accepted, "error": errText, "routes": routesJS}}
+		g.w.Count("config:" + stream)
+		g.w.Count(fmt.Sprintf("config:endpoints=%d", n))
+		if accepted {
+			g.w.Count("config:accepted")
+		} else {
+			g.w.Count("config:rejected")
+		}
+		canon := "CFG|" + ad.name
+		for _, e := range epsJS {
+			canon += "|" + fmt.Sprint(e)
+		}
+		g.w.Add(term, js, "", canon, true)
+	}
+}
+
+// configStream: ordered selections of 2..maxN endpoints from a pool in which some backends use a
+// parameter that only ANOTHER endpoint declares (before or after it), mixed with correct ones
+func (g *gen) configStream(maxN int) {
+	pool := []epTemplate{
+		{segs: []tok{ph("id")}, be: []tok{lit("/o/"), ph("id")}},                                   // fine, declares id
+		{segs: []tok{ph("order")}, be: []tok{lit("/o/"), ph("id")}},                                // uses id, declares order only
+		{segs: []tok{ph("order"), ph("x")}, be: []tok{lit("/p/"), ph("x"), lit("/"), ph("order")}}, // fine
+		{segs: []tok{lit("s")}, be: []tok{lit("/static")}},                                         // no parameter
+		{segs: []tok{ph("a"), ph("b")}, be: []tok{lit("/q/"), ph("b"), lit("/"), ph("x")}},         // uses x, declared by the third only
+		{segs: []tok{ph("Id")}, be: []tok{lit("/r/"), ph("Id")}},                                   // fine; Id next to another endpoint's id
+	}
+	var rec func(chosen []int)
+	rec = func(chosen []int) {
+		if len(chosen) >= 2 {
+			tpls := make([]epTemplate, len(chosen))
+			for i, c := range chosen {
+				tpls[i] = pool[c]
+			}
+			g.configCase(tpls, "multi-endpoint")
+		}
+		if len(chosen) == maxN {
+			return
+		}
+		for c := range pool {
+			used := false
+			for _, d := range chosen {
+				used = used || d == c
+			}
+			if !used {
+				rec(append(append([]int(nil), chosen...), c))
+			}
+		}
+	}
+	rec(nil)
+}
+
+// ---------------------------------------------------------------------------------------
 // init cases (text level)
 
 func (g *gen) initCase(colon bool, ep, be []tok, stream string) {
@@ -800,6 +932,17 @@ func main() {
 	}
 	g.runRoutes(specs, "reuse")
 	g.runConcurrent()
+
+	// ---- 1c. several endpoints in one configuration ---------------------------------------
+	// corpus: the offending endpoint after / before the endpoint that declares the parameter
+	g.configCase([]epTemplate{{segs: []tok{ph("id")}, be: []tok{lit("/o/"), ph("id")}}, {segs: []tok{ph("order")}, be: []tok{lit("/o/"), ph("id")}}}, "corpus")
+	g.configCase([]epTemplate{{segs: []tok{ph("order")}, be: []tok{lit("/o/"), ph("id")}}, {segs: []tok{ph("id")}, be: []tok{lit("/o/"), ph("id")}}}, "corpus")
+	g.configCase([]epTemplate{{segs: []tok{ph("id")}, be: []tok{lit("/o/"), ph("id")}}, {segs: []tok{ph("order")}, be: []tok{lit("/o/"), ph("order")}}}, "corpus")
+	if cfg.Thorough() {
+		g.configStream(4)
+	} else {
+		g.configStream(3)
+	}
 
 	for _, colon := range []bool{true, false} {
 		g.initCase(colon, epToks([]tok{lit("u"), ph("userId")}), []tok{lit("/b/"), ph("userId")}, "corpus")
@@ -1087,5 +1230,5 @@ func main() {
 		g.initRaw(r.Bool(), mk(1+r.Intn(6)), mk(1+r.Intn(6)), "malformed")
 	}
 
-	w.Close("corpus (30 names x 5 adapters, collisions, raw patterns) -> instance reuse (one router instance per adapter: 3-5 different value vectors per route, routes alternating; 12 goroutines x 40 rounds over 12 inputs per adapter, distinct (input, observation) pairs) -> library casers vs ASCII models (all names of length <= 4 (thorough 5) over abAB01-_zZ9, all 256 single bytes) -> every name of length <= 4 (thorough 6) over {a,B,1,-,_} routed under each of the 5 adapters; 0..4 parameters with every sequence of <= 3 uses; declared x used subsets of {a,A,b,ab} through Init in both routing modes -> random names over the whole grammar, 1-4 parameters, random url_pattern shapes, unreserved values -> malformed raw patterns through Init; nontrivial = a parameter is declared and used (route) / Init rejects (init)", true)
+	w.Close("corpus (30 names x 5 adapters, collisions, raw patterns) -> several endpoints per configuration (every ordered selection of 2-3 (thorough 4) of 6 endpoints, some using a parameter only another endpoint declares; Init of the whole, then every endpoint routed) and instance reuse (one router instance per adapter: 3-5 different value vectors per route, routes alternating; 12 goroutines x 40 rounds over 12 inputs per adapter, distinct (input, observation) pairs) -> library casers vs ASCII models (all names of length <= 4 (thorough 5) over abAB01-_zZ9, all 256 single bytes) -> every name of length <= 4 (thorough 6) over {a,B,1,-,_} routed under each of the 5 adapters; 0..4 parameters with every sequence of <= 3 uses; declared x used subsets of {a,A,b,ab} through Init in both routing modes -> random names over the whole grammar, 1-4 parameters, random url_pattern shapes, unreserved values -> malformed raw patterns through Init; nontrivial = a parameter is declared and used (route) / Init rejects (init)", true)
 }
